@@ -716,6 +716,11 @@ func (C19) Judge(c *Ctx, sc *Scenario) []Violation {
 		return vs
 	}
 	if len(names) == 0 && variant != "null-input" && variant != "usage" && variant != "from-file" {
+		if !c.Quiet {
+			// only the shrinker (which runs quiet) should get here; a generated scenario that does is not judged
+			// at all, and this counter says so in the evidence (it hid the positional-expression scenarios once)
+			c.Count("probe.generated_scenario_without_inputs_not_judged")
+		}
 		return vs // degenerate (the shrinker removed every input): nothing is claimed
 	}
 	switch variant {
